@@ -71,14 +71,15 @@ Proof. unfold num. destruct (in_dom t x); [intros [= <-]; reflexivity | discrimi
 Definition num_branch (o : bop) (t : ty) (x y : Z) : res val :=
   if integer_op o
   then do x' <- int_arg x; do y' <- int_arg y; do r <- num_binop o x' y'; num t r
-  else do r <- num_binop o x y; num t r.
+  else do r <- num_binop o x y; if sng_edge o t x y then out_of_domain else num t r.
 
 Lemma num_branch_type o t x y v : num_branch o t x y = Ok v -> exists r, v = VNum t r.
 Proof.
   unfold num_branch. destruct (integer_op o).
   - destruct (int_arg x); cbn [bind]; try discriminate. destruct (int_arg y); cbn [bind]; try discriminate.
     destruct (num_binop o a a0); cbn [bind]; try discriminate. intros H. apply num_type in H. eauto.
-  - destruct (num_binop o x y); cbn [bind]; try discriminate. intros H. apply num_type in H. eauto.
+  - destruct (num_binop o x y); cbn [bind]; try discriminate.
+    destruct (sng_edge o t x y); [discriminate|]. intros H. apply num_type in H. eauto.
 Qed.
 
 Lemma int_arg_ok x x' : int_arg x = Ok x' -> x' = x.
@@ -127,7 +128,7 @@ Proof.
   destruct (rt_binop dm o (ty_of a) (ty_of b)) as [t| | |]; cbn [bind] in H; try discriminate.
   injection Ht as Ht. rewrite Hti in Ht. subst t.
   destruct a as [ta x|s1], b as [tb y|s2]; try discriminate.
-  - destruct o; try discriminate; cbn [integer_op num_binop bind] in H; apply num_type in H; subst v;
+  - destruct o; try discriminate; cbn [integer_op num_binop bind sng_edge] in H; apply num_type in H; subst v;
       unfold b2i; match goal with |- context [if ?c then _ else _] => destruct c end; auto.
   - rewrite Ho in H. injection H as <-. unfold b2i.
     match goal with |- context [if ?c then _ else _] => destruct c end; auto.
@@ -140,7 +141,7 @@ Lemma v_compare_exact dm o ta x tb y : relational o = true -> numeric ta -> nume
 Proof.
   unfold numeric. intros Ho Ha Hb.
   destruct o; try discriminate; destruct ta; try congruence; destruct tb; try congruence;
-    cbn [v_binop left_conv ty_of rt_binop bind integer_op num_binop]; unfold num, b2i;
+    cbn [v_binop left_conv ty_of rt_binop bind integer_op num_binop sng_edge]; unfold num, b2i;
     match goal with |- context [rel ?o ?a ?b ?c] => destruct (rel o a b c) end; reflexivity.
 Qed.
 
@@ -148,14 +149,14 @@ Lemma v_addsub_widest dm o ta x tb y :
   o = Add \/ o = Sub -> numeric ta -> numeric tb ->
   let t := widest (to_float ta) tb in
   let r := match o with Add => x + y | _ => x - y end in
-  in_dom t r = true ->
+  in_dom t r = true -> sng_edge o t x y = false ->
   v_binop dm o (VNum ta x) (VNum tb y) = Ok (VNum t r)
   /\ (ta = TDbl \/ tb = TDbl -> t = TDbl).
 Proof.
-  unfold numeric. intros Ho Ha Hb. cbv zeta. intros D. split.
+  unfold numeric. intros Ho Ha Hb. cbv zeta. intros D G. split.
   - destruct Ho as [-> | ->]; destruct ta; try congruence; destruct tb; try congruence;
       cbn [v_binop left_conv ty_of rt_binop bind integer_op num_binop is_str orb]; unfold num;
-      cbn [to_float] in *; rewrite D; reflexivity.
+      cbn [to_float widest is_dbl is_sng orb] in *; rewrite ?G, D; reflexivity.
   - intros H; destruct ta, tb; try congruence; destruct H; try discriminate; reflexivity.
 Qed.
 
@@ -186,7 +187,8 @@ Proof.
       pose proof (int_arg_no_idx y) as Iy. destruct (int_arg y) as [y'| | |]; cbn [bind]; try discriminate;
         [|intros [= ->]; apply Iy; reflexivity].
       destruct (N x' y') as [[r ->] | ->]; cbn [bind]; [apply num_no_idx | discriminate].
-    + destruct (N x y) as [[r ->] | ->]; cbn [bind]; [apply num_no_idx | discriminate].
+    + destruct (N x y) as [[r ->] | ->]; cbn [bind]; [|discriminate].
+      destruct (sng_edge o t x y); [discriminate | apply num_no_idx].
   - destruct (relational o); [discriminate|]. destruct (zlen s1 + zlen s2 <=? 255); discriminate.
 Qed.
 
